@@ -594,4 +594,21 @@ theorem fresh_tether (ox oy : ℝ) (p q : Pt ℝ) (h : p.x ≠ q.x ∨ p.y ≠ q
   · rw [hbx]; ring
   · rw [hby]; ring
 
+/-! ### affine maps: matrix product = composition, the rotation matrix = `rotate` -/
+
+theorem aff_mul_apply (m n : Aff ℝ) (p : Pt ℝ) : (m.mul n).apply p = m.apply (n.apply p) := by
+  simp only [Aff.mul, Aff.apply]
+  congr 1 <;> ring
+
+theorem rotAff_apply (e : Pt ℝ × Pt ℝ) (p : Pt ℝ) : (rotAff e).apply p = rotate e p := by
+  simp only [rotAff, Aff.apply, rotate]
+  congr 1 <;> ring
+
+/-- The matrix a channel is warped with sends a raw point to the rotated position of where the aligned image shows it. -/
+theorem frameMatrix_apply (t : Tether ℝ) (e : Pt ℝ × Pt ℝ) (he : t.ends = some e) (alignInv : Option (Aff ℝ))
+    (r : Pt ℝ) : (t.frameMatrix alignInv).apply r = rotate e (shownAt alignInv r) := by
+  cases alignInv with
+  | none => simp only [Tether.frameMatrix, Tether.rotMatrix, he, shownAt, rotAff_apply]
+  | some m => simp only [Tether.frameMatrix, Tether.rotMatrix, he, shownAt, aff_mul_apply, rotAff_apply]
+
 end Verif.C07
